@@ -45,6 +45,68 @@ class Obj:
         self._rec(tag)
         raise ValueError(tag)
 
+    async def coro_long(self, tag):
+        """in flight for a long time; ends at once when cancelled"""
+        self._rec(tag)
+        await asyncio.sleep(30)
+        return ("ret", tag)
+
+    async def coro_cleanup(self, tag):
+        """in flight for a long time; when cancelled it needs a few more loop iterations to unwind, then reports"""
+        self._rec(tag)
+        try:
+            await asyncio.sleep(30)
+        except asyncio.CancelledError:
+            for _ in range(5):
+                await asyncio.sleep(0.01)
+            return ("cleaned", tag)
+        return ("ret", tag)
+
+
+async def stopping_scenario(n_long, n_cleanup, order_seed):
+    """a burst of coroutine calls is in flight on the owner's loop when that loop is stopped (force_stop): every caller
+    must get an outcome (a result or an exception), none may be left waiting"""
+    import random
+
+    import bellows.thread as th
+
+    thread = th.EventLoopThread()
+    await thread.start()
+    obj = Obj()
+    proxy = th.ThreadsafeProxy(obj, thread.loop)
+    kinds = ["coro_long"] * n_long + ["coro_cleanup"] * n_cleanup
+    random.Random(order_seed).shuffle(kinds)
+    futs = []
+    try:
+        for i, k in enumerate(kinds):
+            futs.append(asyncio.ensure_future(getattr(proxy, k)(1000 + i)))
+        await asyncio.sleep(0.1)
+        started = len(obj.calls)
+        thread.force_stop()
+        done, pending = await asyncio.wait(futs, timeout=4.0) if futs else (set(), set())
+        outcomes = []
+        for f, k in zip(futs, kinds):
+            if f in pending:
+                outcomes.append(f"{k}:HANG")
+                f.cancel()
+            elif f.cancelled():
+                outcomes.append(f"{k}:cancelled")
+            elif f.exception() is not None:
+                outcomes.append(f"{k}:exc:{type(f.exception()).__name__}")
+            else:
+                outcomes.append(f"{k}:value")
+        try:
+            await asyncio.wait_for(asyncio.shield(thread.thread_complete), 4.0)
+            stopped = True
+        except asyncio.TimeoutError:
+            stopped = False
+        return kinds, started, outcomes, stopped
+    finally:
+        try:
+            thread.force_stop()
+        except Exception:  # noqa: BLE001
+            pass
+
 
 async def scenario(ctx_rows, burst):
     import bellows.thread as th
@@ -232,6 +294,8 @@ def run(ctx):
             elif closed:
                 if "ran=none" not in obs or "fast=True" not in obs:
                     bad = f"call on a closed owner loop executed or blocked: {obs}"
+                elif "saw=None" not in obs:
+                    bad = f"{kind} call on a closed owner loop was not dropped silently: {obs}"
             else:
                 if caller == "main" and "ran=owner/owner" not in obs:
                     bad = f"{kind} looked up on {lookup}, called from another loop, did not run on the owner's loop and thread: {obs}"
@@ -252,8 +316,27 @@ def run(ctx):
                 got = re.sub(r"(value|raised):\d+", r"\1:TAG", obs)
                 if want != got:
                     ctx.corr_diff(f"proxy behaviour differs for {kind} (lookup {lookup}, caller {caller}, closed {closed})", {"kind": kind, "lookup": lookup, "caller": caller}, got, f"{action} => {want}")
+    # owner loop stopping with a burst of coroutine calls in flight
+    for (nl, nc) in [(1, 0), (0, 1), (1, 1), (2, 2), (3, 1), (1, 3)] + ([(4, 4), (0, 5), (5, 0)] if ctx.tier == "thorough" else []):
+        for seed in range(ctx.n(2, 6)):
+            kinds, started, outcomes, stopped = asyncio.run(stopping_scenario(nl, nc, seed))
+            ctx.cov["evaluations"] += 1
+            ctx.cov["distinct_nontrivial"] += 1
+            ctx.count("stopping-burst")
+            bad = None
+            if started != len(kinds):
+                continue  # the burst had not started yet on this (slow) run: nothing to judge
+            hung = [o for o in outcomes if o.endswith("HANG")]
+            if hung:
+                bad = (f"owner loop stopped with {len(kinds)} coroutine calls in flight ({' '.join(kinds)}): {len(hung)} caller(s) received neither a result nor an exception "
+                       f"({' '.join(outcomes)})")
+            elif not stopped:
+                bad = f"owner loop thread did not end after force_stop with calls in flight ({' '.join(outcomes)})"
+            if bad:
+                ctx.violation(bad, {"kind": "stopping"}, {"kind": "stopping", "n_long": nl, "n_cleanup": nc, "seed": seed})
     ctx.cov["rule"] = (f"{rounds} rounds with fresh threads: non-callable / plain / plain returning 7, 0 or the empty string / coroutine / raising coroutine x attribute looked up on the caller's or the owner's loop x called from the caller's "
-                       "or the owner's loop; a burst of queued plain calls for ordering; plain and coroutine calls after the owner's loop was stopped and closed; real threads, thread identity recorded inside the method")
+                       "or the owner's loop; a burst of queued plain calls for ordering; plain and coroutine calls after the owner's loop was stopped and closed (must be dropped silently); bursts of 1..4 (..8 thorough) long-running coroutine calls, "
+                       "some of which need further loop iterations to unwind when cancelled, in flight when the owner's loop is stopped: every caller gets an outcome; real threads, thread identity recorded inside the method")
     ctx.exhaustive = True
 
 
@@ -262,6 +345,14 @@ search = run
 
 def replay(ctx, obj):
     logging.disable(logging.CRITICAL)
+    r = obj.get("replay", {})
+    if r.get("kind") == "stopping":
+        kinds, started, outcomes, stopped = asyncio.run(stopping_scenario(r["n_long"], r["n_cleanup"], r["seed"]))
+        bad = [o for o in outcomes if o.endswith("HANG")] or (not stopped)
+        print(f"replay stopping burst {kinds}: {outcomes} stopped={stopped}: {'FAILS' if bad else 'ok'}")
+        if bad:
+            print(f"VIOLATION property={ctx.pid} replay=replay")
+        return 1 if bad else 0
     before = len(ctx.violations)
     run(ctx)
     bad = ctx.violations[before:]
